@@ -16,7 +16,8 @@ Audited files (tree as of the `fix:` commits, see `known_findings.json`): `duke/
                the theorems prove it never fires;
 * `bounded`  — an allocation whose size comes from the input but is bounded by a 16-bit count or by the bytes
                actually present;
-* `fixed`    — was open in `ffc9e24`, repaired by `52b8362`; a regression request line is replayed on every run.
+* `fixed`    — was open, repaired by a `fix:` commit (40, 41: `52b8362`; 1–8: the commits named in the entry); a
+               regression theorem in `Thm/C16.lean` and a request line in `corpus/regress/C16.txt`, replayed on every run.
 
 `needle` is a piece of the source line: the harness maps a panic location to a site by reading that line, so the ids
 survive line drift; `line` is informational.
@@ -74,33 +75,33 @@ def tableSwitchRange : Nat := 41
 def writerTableSwitchCount : Nat := 42
 
 def table : List Info := [
-  -- ------------------------------------------------------------------ open: panics
+  -- ------------------------------------------------------------------ found open by this audit: 1–8 since repaired, 9 still open
   ⟨1, "duke/src/class_reader/labels.rs", 59, "start_pc + length",
     "`start_pc + length` in u16 (LocalVariableTable, LocalVariableTypeTable, localvar/resource type-annotation targets)",
-    "none: `start_pc < code_length` is checked, the sum is not", .open_⟩,
+    "was open (no guard); fixed by e3534dd: `start_pc.checked_add(length)` is an error now", .fixed⟩,
   ⟨2, "duke/src/class_reader/labels.rs", 24, "self.max_id += 1",
     "label id counter in u16: the 65536th distinct label (code_length = 65535, every pc 0..=65535 labelled)",
-    "none", .open_⟩,
+    "was open (no guard); fixed by 4853513: the counter is a `u32`, ids `0..=65535` fit the label", .fixed⟩,
   ⟨3, "duke/src/class_reader.rs", 728, "offset += offset_delta",
     "StackMapTable: `offset_delta + 1` and `offset += …` in u16",
-    "none: the label bound is tested after the addition", .open_⟩,
+    "was open (no guard); fixed by 6b80d4b: `checked_add` twice, an error now", .fixed⟩,
   ⟨4, "duke/src/class_reader/pool.rs", 221, "pool.get_loadable(argument, bootstrap_methods)",
     "unbounded recursion: a Dynamic constant reachable from its own bootstrap arguments (also pool.rs:248 for InvokeDynamic); " ++
     "acyclic argument DAGs are expanded into trees of exponential size",
-    "none (`// TODO: recursion`)", .open_⟩,
+    "was open (no guard); fixed by cb2ce34: `get_loadable_at_depth` bails at depth > 16 (the expansion of acyclic DAGs into trees remains, bounded by fanout^16)", .fixed⟩,
   ⟨5, "duke/src/class_reader.rs", 1417, "let inner = read_element_values",
     "recursion depth = element_value nesting depth = |input| / 3 (`[` arrays) or / 7 (`@` annotations); lines 1329, 1334, 1411, 1416; " ++
     "the stack of the main thread ends between 5 000 and 20 000 levels",
-    "none (`// TODO: put in a limit into any recursive thing here`)", .open_⟩,
+    "was open (no guard); fixed by 835fdd2: `read_element_values_*` bail at depth > 255", .fixed⟩,
   ⟨6, "duke/src/lib.rs", 141, "std::vec::from_elem(0, size)",
     "`read_u8_vec(length as usize)` with the u32 `attribute_length` of SourceDebugExtension and of every unknown attribute " ++
     "(class_reader.rs:160, 250, 342, 459, 839, 1237): up to 4 GiB requested before a single byte is read",
-    "none", .open_⟩,
+    "was open (no guard); fixed by 8349742: `take(size).read_to_end`, the buffer grows only with bytes present", .fixed⟩,
   ⟨7, "duke/src/tree/descriptor.rs", 354, "size += 2",
     "`get_arguments_size` counts in u8; reached from the writer (simple_class_writer.rs:998, invokeinterface) on any descriptor the reader accepted",
-    "none: `MethodDescriptor::check_valid` accepts every string", .open_⟩,
+    "was open (no guard); fixed by cf30e8c: `checked_add`, an error now", .fixed⟩,
   ⟨8, "duke/src/tree/descriptor.rs", 367, "size += 1",
-    "same counter, one-slot arguments", "none", .open_⟩,
+    "same counter, one-slot arguments", "was open (no guard); fixed by cf30e8c: `checked_add`, an error now", .fixed⟩,
   ⟨9, "duke/src/simple_class_writer.rs", 470, "compute_signed_offset(opcode_pos + 1 + 2, target)",
     "`opcode_pos + 1 + 2` in u16 when a far backward `if` sits at opcode_pos >= 65533 (a 65535-byte method grows when `ldc` becomes `ldc_w`)",
     "`opcode_pos <= 65535` only", .open_⟩,
